@@ -93,7 +93,7 @@ impl Property for C04 {
                     let st = crate::refsem::solution_sets(&case.program, g, 2, 50).st;
                     let qual = if class.contains("repeated-var") {
                         ""
-                    } else if st.used_env && case.program.traits.iter().any(|t| t.extra > 0) {
+                    } else if st.used_env && env_existential(&case.program) {
                         ":env-with-trait-params"
                     } else if st.co_cycle || (program_has_co_cycle(&case.program) && !goal_is_closed(g)) {
                         ":coinductive-cycle"
